@@ -3,7 +3,9 @@
 in /verif/seeded/<id>-<variant>/meta.json.  (Used while building the machinery; not part of the checks.)"""
 import json, os, re, subprocess, sys, shutil
 SRC = "/tmp/seed"
-DST = "/verif/seeded"
+VERIF = os.path.dirname(os.path.abspath(__file__))
+REPO = os.environ.get("VERIF_REPO", "/repo")
+DST = os.path.join(VERIF, "seeded")
 confirm = {}
 for log in ("/verif/build/confirm1.log", "/verif/build/confirm2.log", "/tmp/seed/confirm2.log", "/tmp/seed/confirm3.log", "/tmp/seed/confirm4.log", "/tmp/seed/confirm5.log", "/tmp/seed/confirm6.log", "/tmp/seed/confirm7.log"):
     if os.path.exists(log):
@@ -41,13 +43,13 @@ for name in sorted(os.listdir(DST)):
         if os.path.exists(os.path.join(dst, "meta.json")):
             try: old_meta = json.load(open(os.path.join(dst, "meta.json")))
             except Exception: old_meta = {}
-        subprocess.run(["git", "-C", "/repo", "checkout", "--", "."], check=True)
-        ap = subprocess.run(["git", "-C", "/repo", "apply", os.path.join(dst, "patch.diff")], capture_output=True, text=True)
+        subprocess.run(["git", "-C", REPO, "checkout", "--", "."], check=True)
+        ap = subprocess.run(["git", "-C", REPO, "apply", os.path.join(dst, "patch.diff")], capture_output=True, text=True)
         if ap.returncode != 0:
             print(name, "PATCH DOES NOT APPLY", ap.stderr[:200]); continue
         env = dict(os.environ, VERIF_KEEP_EVIDENCE="1")
-        p = subprocess.run(["./check", pid], cwd="/verif", capture_output=True, text=True, env=env)
-        subprocess.run(["git", "-C", "/repo", "checkout", "--", "."], check=True)
+        p = subprocess.run(["./check", pid], cwd=VERIF, capture_output=True, text=True, env=env)
+        subprocess.run(["git", "-C", REPO, "checkout", "--", "."], check=True)
         lines = p.stdout.strip().splitlines()
         viol = [l for l in lines if l.startswith("VIOLATION")]
         summary = lines[-1] if lines else ""
